@@ -192,15 +192,14 @@ Example pvc_after_switch_example :
   | _ => False end.
 Proof. vm_compute. auto. Qed.
 
-(* C07-N13 (open): the growing splice fast path ignores Array.prototype: [1,2,3] with a getter-only accessor at
-   Array.prototype[3]; splice(0,0,9) must fail in Set(O,"3",..) and leave the array alone *)
+(* C07-N13 (repaired by bbc0a30): with an index property on Array.prototype the growing splice takes the generic
+   path, which refines S (ProofsAlgo.splice_refines) *)
 Definition n13_state :=
   mkDA [Some (IPlain 1); Some (IPlain 2); Some (IPlain 3)] 3 3 0 true (mkB true [] [(3, EAcc (Some 0) None false true)]).
-Lemma splice_fastpath_proto_refuted :
-  d_guard n13_state = true /\
-  snd (i_splice (ID n13_state) 0 (Some 0%Z) [9]) <> snd (a_splice primS (absD n13_state) 0 (Some 0%Z) [9]) /\
-  snd (a_splice primI (ID n13_state) 0 (Some 0%Z) [9]) = snd (a_splice primS (absD n13_state) 0 (Some 0%Z) [9]).
-Proof. vm_compute. repeat split; congruence. Qed.
+Example splice_proto_example :
+  i_splice (ID n13_state) 0 (Some 0%Z) [9] = a_splice primI (ID n13_state) 0 (Some 0%Z) [9] /\
+  snd (i_splice (ID n13_state) 0 (Some 0%Z) [9]) = RErr 1.
+Proof. vm_compute. auto. Qed.
 
 (* ------------------------------------------------------------------------------------------- *)
 (* 7. the sort validator *)
